@@ -201,6 +201,7 @@ class Ctx:
         self.assumptions = []
         self.checker_cmd = ""
         self.notes = []
+        self.driver_path = DRIVER
         os.makedirs(REPLAY_DIR, exist_ok=True)
         os.makedirs(EVIDENCE_DIR, exist_ok=True)
         try:
@@ -282,6 +283,13 @@ class Ctx:
                 # per-theorem status unknown: nothing discharged
                 self.discharged = []
                 return False
+            # private copy of the driver: a concurrent relink must not disturb this run
+            if with_driver and os.path.exists(DRIVER):
+                import shutil
+                d = os.path.join(BUILD, "drivers")
+                os.makedirs(d, exist_ok=True)
+                self.driver_path = os.path.join(d, "gvdriver-%s-%d" % (self.prop, os.getpid()))
+                shutil.copy2(DRIVER, self.driver_path)
             # axiom audit
             audit = "\n".join(["import %s" % m for m in prop_modules] +
                               ["#print axioms %s" % t for _, t in theorems]) + "\n"
@@ -353,13 +361,13 @@ class Ctx:
         return LineProc([GARDEN, "verif"])
 
     def model(self):
-        return LineProc([DRIVER])
+        return LineProc([self.driver_path])
 
     def garden_batch(self, lines, **kw):
         return batch([GARDEN, "verif"], lines, **kw)
 
     def model_batch(self, lines, **kw):
-        return batch([DRIVER], lines, **kw)
+        return batch([self.driver_path], lines, **kw)
 
     def scratch(self, name=""):
         d = os.path.join(BUILD, "scratch", "%s-%d-%s" % (self.prop, os.getpid(), name))
@@ -399,6 +407,11 @@ class Ctx:
         return path
 
     def finish(self):
+        if self.driver_path != DRIVER:
+            try:
+                os.remove(self.driver_path)
+            except OSError:
+                pass
         wall = time.time() - self.t0
         lines = []
         rc = 0
